@@ -1,10 +1,11 @@
 #!/bin/bash
-# tools/reverify.sh [out] : every seeded change again against the current /repo HEAD and the current checks (quick tier)
-out="${1:-/verif/.scratch/reverify.txt}"; : > "$out"
+# tools/reverify.sh [out] [ID-prefix ...] : seeded changes again against the current /repo HEAD and the current checks (quick tier)
+out="${1:-/verif/.scratch/reverify.txt}"; shift; : > "$out"
 cd /verif
 for d in seeded/*/; do
   id=$(basename "$d"); prop=$(python3 -c "import json,sys;print(json.load(open('$d/meta.json')).get('property') or '$id'.split('-')[0])")
   [ -f "$d/patch.diff" ] || continue
+  if [ $# -gt 0 ]; then ok=0; for p in "$@"; do [ "$prop" = "$p" ] && ok=1; done; [ $ok = 1 ] || continue; fi
   r=$(timeout 1500 tools/applycheck.sh "$d/patch.diff" "$prop" 2>&1 | grep -E "^== |does not apply|error:" | head -2 | tr '\n' ' ')
   echo "$id $prop $r" >> "$out"
 done
